@@ -26,21 +26,21 @@ def cpseq(strings):
 _case_re = re.compile(r'^<<"CASE", <<([0-9, ]*)>>>>$')
 
 
-def gen_cases(tag, mode, lits=(), binops=(), unops=(), funcs=(), funcs2=(), maxbin=2, maxun=0, chain=("1",), signs=("",),
+def gen_cases(tag, mode, lits=(), binops=(), unops=(), funcs=(), funcs2=(), postops=(), maxbin=2, maxun=0, chain=("1",), signs=("",),
               workers=1, timeout=1200):
     """Run MC_ExprGen with the given constants; returns (texts, TlcResult)."""
     # TLC's cfg syntax has no tuples inside sets: the constants go into a generated module
     mod = "Gen_%s" % tag
     with open(os.path.join(vlib.SPEC, mod + ".tla"), "w") as f:
         f.write("---- MODULE %s ----\nEXTENDS MC_ExprGen\n" % mod)
-        f.write("G_Lits == %s\nG_BinOps == %s\nG_UnOps == %s\nG_Funcs == %s\nG_Funcs2 == %s\nG_Chain == %s\nG_Signs == %s\n" % (
-            cpset(lits), cpset(binops), cpset(unops), cpset(funcs), cpset(funcs2), cpseq(chain), cpset(signs)))
+        f.write("G_Lits == %s\nG_BinOps == %s\nG_UnOps == %s\nG_Funcs == %s\nG_Funcs2 == %s\nG_Chain == %s\nG_Signs == %s\nG_PostOps == %s\n" % (
+            cpset(lits), cpset(binops), cpset(unops), cpset(funcs), cpset(funcs2), cpseq(chain), cpset(signs), cpset(postops)))
         f.write("====\n")
     cfg = os.path.join(vlib.SPEC, mod + ".cfg")
     with open(cfg, "w") as f:
         f.write("SPECIFICATION Spec\nINVARIANT Emit\nCHECK_DEADLOCK FALSE\nCONSTANTS\n")
         f.write('  Mode = "%s"\n  MaxBin = %d\n  MaxUn = %d\n' % (mode, maxbin, maxun))
-        f.write("  Lits <- G_Lits\n  BinOps <- G_BinOps\n  UnOps <- G_UnOps\n  Funcs <- G_Funcs\n  Funcs2 <- G_Funcs2\n  Chain <- G_Chain\n  Signs <- G_Signs\n")
+        f.write("  Lits <- G_Lits\n  BinOps <- G_BinOps\n  UnOps <- G_UnOps\n  Funcs <- G_Funcs\n  Funcs2 <- G_Funcs2\n  PostOps <- G_PostOps\n  Chain <- G_Chain\n  Signs <- G_Signs\n")
     try:
         r = vlib.tlc(mod, cfg, workers=workers, timeout=timeout, tag="gen" + tag, xmx="8g")
     finally:
@@ -114,7 +114,7 @@ def strip_nulls(x):
     return x
 
 
-_verdict_re = re.compile(r'^<<"(REJECT|ASTDIFF|SILENT|CRASH|UNSUPPORTED|NOTE)", (\d+)(?:, (.*))?>>$')
+_verdict_re = re.compile(r'^<<"(REJECT|ASTDIFF|SILENT|CRASH|UNSUPPORTED|NOTE|SPECRT|DRIFT)", (\d+)(?:, (.*))?>>$')
 
 
 def judge(events, module="Trace_Eval", cfg=None, shards=8, tag="jd", timeout=3600, env=None, min_per_shard=300):
